@@ -243,8 +243,8 @@ func runE8(p *Prog, r *Report) {
 			return true
 		})
 	}
-	r.ExpectMin("E8.hover-calls", nCalls, 35)
-	r.ExpectMin("E8.hover-literals", nLits, 15)
+	r.ExpectMin("E8.hover-calls", nCalls, 28)
+	r.ExpectMin("E8.hover-literals", nLits, 12)
 	r.Clauses = append(r.Clauses, "E8 (induction) every HoverAtPos call descends into a child expression only under child.Range().ContainsPos(pos) or hovers the caller's own expression; every HoverData literal's Range is the method's own expression range, a range with a dominating ContainsPos(pos), or a listed superset of one")
 	r.Assume("hclsyntax geometry: RangeBetween(a,b) ⊇ a and b; attr.Range() ⊇ attr.NameRange; a node's range contains its children's")
 }
